@@ -120,6 +120,7 @@ type Env struct {
 	Log []string
 	Verbose bool
 	T0 time.Time
+	T  *Track
 }
 
 // BlockResp records the observer's responses for cross-replica comparison.
@@ -274,6 +275,13 @@ func (e *Env) observe(kind string, op *Op, built *Built, res *abci.ResponseDeliv
 	e.seqNo++
 	prev := e.Cur
 	ctx := e.R.DeliverCtx(e.Blk)
+	if kind != "tx" {
+		// Writes of begin/end blockers sit in the deliver state's cache layer and reach the
+		// write listeners only at Commit, so these steps re-read every watched store.
+		for _, n := range watchedStores {
+			e.R.Dirty[n] = true
+		}
+	}
 	cur := e.R.TakeSnap(ctx, e.W, prev, e.extraAddrs)
 	e.R.ClearDirty()
 	e.Cur = cur
